@@ -85,6 +85,9 @@ def cases(draw):
         "footprint": draw(st.lists(st.sampled_from([0, 1, 2, 3, 5, 8, 2.5]), min_size=8, max_size=8)),
         "load": draw(st.lists(st.sampled_from([0, 1, 2, 4, 10, 0.5]), min_size=8, max_size=8)),
         "algo_pick": draw(st.integers(0, 5)), "rng_seed": draw(st.integers(0, 10 ** 6)),
+        # a quarter of the cases distribute twice in the same process: the same problem first with these constraints
+        # removed, then complete (same variable names, more links): a result must not depend on an earlier call
+        "drop_first": draw(st.lists(st.integers(0, 3), max_size=2, unique=True)) if draw(st.integers(0, 3)) == 0 else [],
     }
 
 
@@ -174,6 +177,25 @@ def check_mapping(mapping, comp_names, agent_descs, must, footprint, method):
 
 
 def run_case(case):
+    drop = [i for i in case.get("drop_first", []) if i < len(case["dcop"]["constraints"])]
+    if not drop:
+        return _run_one(case)
+    first = dict(case)
+    first["dcop"] = dict(case["dcop"])
+    first["dcop"]["constraints"] = [c for i, c in enumerate(case["dcop"]["constraints"]) if i not in drop]
+    first["entry"] = "api"
+    out1 = _run_one(first)
+    if not out1.ok and not out1.discard:
+        out1.why = "[first call of two] " + out1.why
+        return out1
+    out2 = _run_one(case)
+    out2.labels.append("two-calls")
+    if not out2.ok:
+        out2.why = "[second call, after distributing the same problem with constraints %r removed] %s" % (drop, out2.why)
+    return out2
+
+
+def _run_one(case):
     import random
     method, graph = case["method"], case["graph"]
     labels = ["method:" + method, "graph:" + graph, "entry:" + case["entry"], "agents:%d" % len(case["agents"])]
